@@ -655,6 +655,10 @@ def run_case(case, prop):
                     faults['callback-interrupt'] = faults.get('callback-interrupt', 0) + 1
                     if cbo.calls == 1:
                         probes['interrupt@1'] = probes.get('interrupt@1', 0) + 1
+                    if prop == 'C08' and hasattr(eng, 'model') and hasattr(eng.model, 'potentials'):
+                        # the optimiser was made to exit early: what the estimator object now exposes as its model (mechanisms read
+                        # engine.model) must still be one coherent distribution
+                        check_coherent(mbi, eng.model, case, tag + ' engine.model after the call was interrupted at callback %d' % cbo.calls, solver + ':after-interrupt', viol, probes)
             steps += 1 + (cbo.calls if cbo else iters)
             if pending_interrupt:
                 interrupted_then_est = True
